@@ -9,7 +9,7 @@ export PYTHONPATH=/repo PYTHONHASHSEED=0
 import sys
 sys.path.insert(0, "harness"); sys.path.insert(0, "translator")
 import importlib
-for mod in ("props.c15", "props.c19", "props.c14"):
+for mod in ("props.c15", "props.c19", "props.c14", "props.c11"):
     try:
         importlib.import_module(mod)
     except Exception as e:
